@@ -66,8 +66,10 @@ func (sim) Explain(_ string, stats map[string]int64) string {
 		"read is compared with model-with-own-writes and the whole tree is dumped and compared before the transaction ends; after every transaction a "+
 		"fresh read transaction must see model-committed (after nil) or the unchanged model (after error, panic, commit failure, write failure, rollback); "+
 		"after reopen the file must equal the model. Documented error values checked (count of checks that hit each): %s. ", strings.Join(errs, ", "))
-	s += fmt.Sprintf("bbolt's Cursor.Delete-then-Next skip (dependency behaviour, not asserted unless cfg strict_cdel=1) was observed %d times. ",
-		stats["obs.cursor-delete-next-skipped"])
+	s += fmt.Sprintf("Dependency (bbolt 1.3.11) behaviours that are counted, not asserted: Cursor.Delete-then-Next skipped the successor %d times "+
+		"(cfg strict_cdel=1 asserts it); Cursor.Prev stopped at a leaf emptied in the same transaction %d times (cfg strict_bwd=1); Cursor.Last on a bucket "+
+		"emptied inside a read-write transaction was avoided %d times because it can spin for ever (cfg last_on_emptied=1 calls it; plans under "+
+		"sims/dbsim/observations). ", stats["obs.cursor-delete-next-skipped"], stats["obs.prev-stopped-at-emptied-page"], stats["guard.last-on-empty-bucket-avoided"])
 	if n := stats["guard.readacross-skipped-large-file"]; n > 0 {
 		s += fmt.Sprintf("The read-transaction-across-commit check was skipped %d times because the file had grown (single-goroutine mmap deadlock guard). ", n)
 	}
@@ -83,6 +85,7 @@ func (sim) Assumptions() []string {
 	return []string{
 		"C11: Get on a key holding an empty value may return nil or an empty slice (bbolt returns nil inside the writing transaction, empty after commit); only byte equality is asserted",
 		"C11: completeness of a cursor iteration that interleaves Cursor.Delete with Next is not asserted (bbolt skips the successor of a deleted pair when the leaf is already dirty); set cfg strict_cdel=1 to assert it",
+		"C11: inside a read-write transaction a backward cursor step may end early in a bucket that lost keys in that transaction (bbolt's Prev does not step over emptied leaf pages; cfg strict_bwd=1 asserts completeness), and Cursor.Last is not called on a bucket that is empty inside a read-write transaction (bbolt spins for ever when such a bucket spans several leaf pages; cfg last_on_emptied=1 calls it)",
 		"C11: snapshot isolation is checked with a read transaction held across a complete writer in the same goroutine (the file is pre-grown so that the writer never has to remap); multi-goroutine readers are left to the scheduler-based variant",
 		"C11: error VALUES are asserted only where bdb's convertErr maps them; NextSequence/SetSequence in a read-only transaction are only required to fail",
 	}
